@@ -1,6 +1,6 @@
 """Shared guard definitions and helpers for the rule modules."""
 import re
-from base import (TryOk, PredTrue, PredFalse, Cut, CutPolicy, eq_test, data_test, pred_test, origin_match,
+from base import (TryOk, PredTrue, PredFalse, Cut, CutPolicy, eq_test, data_test, pred_test, origin_match, rel, rel_sign, om, find_rel, rel_atoms,
                   flat_atoms, exact_origins, all_origins, ops_of, call_tag, where, short_id, show,
                   _bool_targets)
 from absint import Val, V, EMPTY, vfield, vget, tagvals, const_of
